@@ -349,8 +349,15 @@ func (s *scanner) isDone(resp *pb.ScanResponse, region hrpc.RegionInfo) bool {
 	}
 
 	//  Reversed Scanner
-	return len(s.rpc.StopRow()) != 0 && // (2)
-		bytes.Compare(s.rpc.StopRow(), region.StartKey()) >= 0 // (3)
+	if len(s.rpc.StopRow()) == 0 { // (2)
+		return false
+	}
+	// (3), or no row lies between the (exclusive) stop row and the row the next
+	// region would be scanned from, e.g. when this region starts at stopRow+0x00.
+	// That request would start and stop at the same row, which HBase serves as a
+	// get of that row.
+	return bytes.Compare(s.rpc.StopRow(), region.StartKey()) >= 0 ||
+		bytes.Compare(s.rpc.StopRow(), s.startRow) >= 0
 }
 
 func (s *scanner) isRegionScannerClosed() bool {
